@@ -121,6 +121,15 @@ func genCase(sweep bool) func(t *rapid.T) Case {
 			f1 := rapid.IntRange(0, ck.NAccounts-1).Draw(t, "f1")
 			f2 := (f1 + rapid.IntRange(1, ck.NAccounts-1).Draw(t, "f2")) % ck.NAccounts
 			c.Next.Txs = append(c.Next.Txs, filler(t, "fill1", f1), filler(t, "fill2", f2))
+			if rapid.Bool().Draw(t, "fill3") {
+				c.Next.Txs = append(c.Next.Txs, filler(t, "fill3", f1))
+			}
+		}
+		// Nodes that trust the block signature and do not verify the transactions of a block (VerifyTransactions:
+		// false, the setting of the public network configurations): every verdict that does not rest on the validity
+		// of an individual transaction stays the same.
+		if !sweep && structural(e) && rapid.IntRange(0, 3).Draw(t, "noverifytx") == 0 {
+			c.Node.NoVerifyTx = true
 		}
 		return c
 	}
@@ -130,4 +139,19 @@ func init() {
 	vt.PropertyID = "C06"
 	vt.Register("single", 1.0, genCase(false), checkCase)
 	vt.Register("sweep", 0.02, genCase(true), checkCase)
+}
+
+// structural tells whether the verdict of a catalogue entry is independent of transaction verification.
+func structural(e *entry) bool {
+	if e == nil || e.special != nil {
+		return false
+	}
+	if !e.txKind {
+		return true
+	}
+	switch e.name {
+	case "tx-dup", "tx-dup-tail-nomerkle", "tx-drop-nomerkle", "tx-add-nomerkle", "tx-drop", "enc-txcount-minus":
+		return true
+	}
+	return false
 }
